@@ -91,7 +91,9 @@ def job_build(job) -> report.JobResult:
     eng = Engine(budget_s=900)
     eng.render_opaque = True
     eng.char_alphabet = "c1"
-    eng.sensitive_chars = URL_SENSITIVE
+    # every character of the concrete ROOT PATH is sensitive as well: a symbolic path character equal to one of them must be that
+    # character in the text the code sees (e.g. a path that starts with the root path), not an opaque placeholder
+    eng.sensitive_chars = tuple(sorted(set(URL_SENSITIVE) | {ord(c) for c in root}))
     port_v = z3.Int("port")
     eng.solver.add(port_v >= 1, port_v <= 65535)
     host = SStr.fresh(2, "h", 0, 127, eng.solver)
@@ -479,7 +481,7 @@ def jobs(tier: str):
             for k in range(1, n + 2):
                 out.append(dict(name=f"repr/{user}@{hostpart}/pw{k}", kind="repr", user=user, hostpart=hostpart, n=k, weight=10 ** k))
     for op in ("include", "replace", "remove"):
-        for baseq in ("", "a=1", "b=2&a=1&a=3&c=", "x=%26&a=+"):
+        for baseq in ("", "a=1", "b=2&a=1&a=3&c=", "x=%26&a=+", "a=0&a=1&a=2&b=3", "t=x&a=1&a=&p=1&a=z&a=y&s=up"):
             for k in range(0, n + 1):
                 out.append(dict(name=f"query/{op}/{baseq or 'none'}/v{k}", kind="query", op=op, baseq=baseq, n=k))
     out.append(dict(name="twin/replace", kind="replace", base=0, fields=["path"], n=1, twin=True))
